@@ -165,6 +165,30 @@ impl World {
                 }
                 self.after_step(&[i])
             }
+            Op::TornBlock { r, from, pick, complete } => {
+                let i = self.rix(*r);
+                if *complete {
+                    self.complete_torn(Some(i));
+                } else {
+                    let j = self.peer(i, *from);
+                    let have = self.reps[i].store.keys();
+                    let cand: Vec<(String, Vec<u8>)> =
+                        self.reps[j].store.snap().into_iter().filter(|(k, v)| k.ends_with(".delta") && !have.contains(k) && v.len() >= 2 && !self.torn.contains(&(j, k.clone()))).collect();
+                    if !cand.is_empty() {
+                        let (name, bytes) = &cand[gen::sel(*pick, cand.len())];
+                        self.reps[i].store.put_raw(name, &bytes[..bytes.len() / 2]);
+                        self.torn.insert((i, name.clone()));
+                        self.log.push(format!("r{}: block file {} of r{} arrives half-written ({} of {} bytes)", i, name, j, bytes.len() / 2, bytes.len()));
+                        self.bump("torn_blocks_placed");
+                    }
+                }
+                self.after_step(&[i])
+            }
+            Op::ReplayOnto { r, mode, edit } => {
+                let i = self.rix(*r);
+                self.op_replay_onto(i, *mode, edit)?;
+                self.after_step(&[i])
+            }
             Op::SnapshotRace { r, from, e1, e2, e3 } => {
                 let i = self.rix(*r);
                 let j = self.peer(i, *from);
@@ -654,6 +678,19 @@ impl World {
     }
 
     // ------------------------------------------------------------------ meld (C12 C11)
+    /// the half-written items of one replica (or of all) receive their remaining bytes
+    pub fn complete_torn(&mut self, only: Option<usize>) {
+        let torn: Vec<(usize, String)> = self.torn.iter().filter(|(i, _)| only.map_or(true, |o| o == *i)).cloned().collect();
+        for (i, name) in torn {
+            if let Some(b) = self.universe.get(&name).cloned().or_else(|| self.reps.iter().enumerate().find_map(|(x, r)| if self.torn.contains(&(x, name.clone())) { None } else { r.store.get(&name) })) {
+                self.reps[i].store.set_raw(&name, b);
+                self.torn.remove(&(i, name.clone()));
+                self.log.push(format!("r{}: half-written item {} completed", i, name));
+                self.bump("torn_blocks_completed");
+            }
+        }
+    }
+
     pub fn op_meld(&mut self, i: usize, j: usize) -> R<()> {
         if i == j {
             return Ok(());
@@ -850,7 +887,10 @@ impl World {
         let staged = guard("has_staging", || self.reps[i].m.has_staging())?;
         for it in items.iter().take(take) {
             let bytes = self.reps[j].store.get(it).unwrap();
-            self.reps[i].store.put_raw(it, &bytes);
+            if self.reps[i].store.put_raw(it, &bytes) && self.torn.contains(&(j, it.clone())) {
+                // a raw file copy passes a half-written file on as it is
+                self.torn.insert((i, it.clone()));
+            }
             if refresh_each && !staged {
                 self.log.push(format!("   copied {}", it));
                 self.op_refresh(i)?;
